@@ -380,6 +380,9 @@ def run(ctx):
     check_mnemonics(ctx)
     check_symbols(ctx)
     c03.check_exception_table(ctx, "C17.X")
+    # the parser resolves a mnemonic through the flavour's own name table
+    from . import c01
+    c01.check_flavour_tables(ctx, "C17.N")
 
 
 B = "netqasm/lang/instr/base.py"
